@@ -23,6 +23,7 @@ func checkC01(c *chk.Ctx) {
 		"R01f the WAL reports an offset as synced only after a successful flush",
 		"R01h follower cursor attaches at the truncated head",
 		"R01i a follower head is accepted without truncation only when the leader log contains that entry (term equal, offset bounded)",
+		"R01j an election's term is stored by the coordinator before any NewTerm is sent for it (a restarted coordinator must not reuse a term in which a leader was already elected: two leaders of one term would both collect acknowledgements)",
 	}
 	c.NotDec = []string{
 		"composition of these mechanisms into durability under arbitrary fault sequences",
@@ -36,6 +37,7 @@ func checkC01(c *chk.Ctx) {
 	ruleR01f(h, "R01f")
 	ruleR03d(h, "R01h")
 	ruleNoTruncateDecision(h, "R01i")
+	ruleR05aInto(h, "R01j")
 }
 
 // writeWorker finds the leader's write worker: the unique repository function that
